@@ -9,6 +9,8 @@ mod multimap_btree;
 mod page_store;
 mod table_tree;
 mod table_tree_base;
+#[cfg(redb_verif)]
+pub mod verif;
 
 pub(crate) use btree::{Btree, BtreeMut, BtreeStats, RawBtree};
 pub(crate) use btree_base::BtreeHeader;
